@@ -36,6 +36,45 @@ func unusedParams(f *ssa.Function) []string {
 
 func ruleC20(c *Ctx) {
 	c.Explain("C20 (structural part): sibling agreement of the two dbm.DB backends. Decided: every method of the DB, Batch and Iterator interfaces exists on both backends and uses every one of its parameters (a backend that ignores a parameter — e.g. the iteration prefix — cannot agree with one that honours it); both IteratorPrefixWithStart implementations hand the caller's prefix, start key and direction unchanged to their iterator constructors; both Batch.Write implementations agree on whether a written batch is reset; MemDB's start-bounded key scan filters by prefix before comparing with the start key; node selects the backend by name through one constructor table. Not decided: iteration order and seek semantics of the two iterators, value aliasing of MemDB (it stores and returns the caller's slice; LevelDB copies) — behavioural.")
+	// a batch is a sequence: LevelDB applies the operations of a batch in call order, so the in-memory
+	// batch must record Set and Delete in ONE ordered list (two per-kind collections lose the order of
+	// delete-then-set on one key) and replay that list
+	{
+		recField := func(fn string) (string, bool) {
+			f := c.Func(pLDB, fn)
+			if f == nil {
+				return "", false
+			}
+			fields := map[string]bool{}
+			isAppend := true
+			for _, b := range f.Blocks {
+				for _, in := range b.Instrs {
+					if st, ok := in.(*ssa.Store); ok {
+						if ty, fl, isF := fieldOf(st.Addr); isF && ty == "database/leveldb.memDBBatch" {
+							fields[fl] = true
+							if !mentions(st.Val, callsKey("builtin:append"), 2, nil) {
+								isAppend = false
+							}
+						}
+					}
+				}
+			}
+			if len(fields) != 1 || !isAppend || len(mapUpdatesInAnyField(f)) > 0 {
+				return "", false
+			}
+			for fl := range fields {
+				return fl, true
+			}
+			return "", false
+		}
+		fs, oks := recField("(*memDBBatch).Set")
+		fd, okd := recField("(*memDBBatch).Delete")
+		okw := false
+		if wr := c.Func(pLDB, "(*memDBBatch).Write"); wr != nil && oks && okd && fs == fd {
+			okw = mentions2(wr, readsField("database/leveldb.memDBBatch", fs))
+		}
+		c.Require("sibling", "memDBBatch records Set and Delete in one ordered list and Write replays it", oks && okd && fs == fd && okw, "Set appends to %q, Delete appends to %q", fs, fd)
+	}
 	ifaces := map[string][2]string{"DB": {"MemDB", "GoLevelDB"}, "Batch": {"memDBBatch", "goLevelDBBatch"}, "Iterator": {"memDBIterator", "goLevelDBIterator"}}
 	p := c.TPkg(pLDB)
 	if p == nil {
